@@ -117,6 +117,8 @@ def unit_s2_alpha(ctx):
     for s in range(NS):
         hyps += [tm.mk_lt(tol, rho[s]), tm.mk_lt(tol, rho[s] * LAM ** 3), tm.mk_le(tm.ZERO, sigma[s]), tm.mk_le(tm.ZERO, tau[s])]
     it.hyps = list(hyps)
+    ctx.assume("uniform-scaling identities of s2 / alpha / the exponents are stated for densities above the fixed thresholds (ALPHA_TOL = 1e-10, rhocut) both before and after "
+               "scaling: a fixed threshold is not scale covariant, so the identity cannot hold across it (below the thresholds the quantities are identically zero, C08)")
     for name, nargs in (("get_s2", 2), ("get_alpha", 3)):
         f = m.ns[name]
         args0 = [rho, sigma, tau][:nargs]
